@@ -167,6 +167,11 @@ fn edit_menu() -> Vec<Op> {
 
 /// Reads after an edit reflect it (model of the edit over the expected attribute list).
 fn check_edit(p: &Prepared, op: &Op, doc: &[u8], tag_start: usize, tag_len: usize, ns: Ns) -> (Option<String>, usize) {
+    check_edits(p, std::slice::from_ref(op), doc, tag_start, tag_len, ns)
+}
+
+/// A script of edits on one token, then one re-read.
+fn check_edits(p: &Prepared, ops: &[Op], doc: &[u8], tag_start: usize, tag_len: usize, ns: Ns) -> (Option<String>, usize) {
     let tag = &doc[tag_start..tag_start + tag_len];
     let Some(exp) = expectation(tag, ns, p.encoding) else { return (None, 0) };
     let rr = run(p, &[doc], true);
@@ -176,22 +181,25 @@ fn check_edit(p: &Prepared, op: &Op, doc: &[u8], tag_start: usize, tag_len: usiz
     }
     let mut model: Vec<(String, String)> = exp.attrs.iter().map(|(l, _, v)| (l.clone(), v.clone())).collect();
     let mut name = exp.name.clone();
-    match op {
-        Op::SetAttr(n, v) => {
-            let l = n.to_ascii_lowercase();
-            if let Some(a) = model.iter_mut().find(|(m, _)| *m == l) {
-                a.1 = v.clone();
-            } else {
-                model.push((l, v.clone()));
+    for op in ops {
+        match op {
+            Op::SetAttr(n, v) => {
+                let l = n.to_ascii_lowercase();
+                if let Some(a) = model.iter_mut().find(|(m, _)| *m == l) {
+                    a.1 = v.clone();
+                } else {
+                    model.push((l, v.clone()));
+                }
             }
+            Op::RemoveAttr(n) => {
+                let l = n.to_ascii_lowercase();
+                model.retain(|(m, _)| *m != l);
+            }
+            Op::SetTagName(n) => name = n.to_ascii_lowercase(),
+            _ => {}
         }
-        Op::RemoveAttr(n) => {
-            let l = n.to_ascii_lowercase();
-            model.retain(|(m, _)| *m != l);
-        }
-        Op::SetTagName(n) => name = n.to_ascii_lowercase(),
-        _ => {}
     }
+    let op = ops;
     let Some(pos) = rr.events.iter().position(|e| matches!(e, Ev::El { loc, .. } if loc.0 == tag_start)) else {
         return (Some("no element event".into()), calls);
     };
@@ -284,6 +292,11 @@ pub fn replay(case: &Value) -> Option<String> {
             let p = Prepared::new(base_cfg(enc.name(), lookup_ops(enc))).ok()?;
             let cut = case["cut"].as_u64().map(|c| c as usize);
             check_read(&p, &doc, start, len, ns, cut).0
+        }
+        "edits" => {
+            let ops: Vec<Op> = serde_json::from_value(case["ops"].clone()).ok()?;
+            let p = Prepared::new(base_cfg(enc.name(), ops.clone())).ok()?;
+            check_edits(&p, &ops, &doc, start, len, ns).0
         }
         "h5" => {
             let exp = expectation(&doc[start..start + len], ns, enc)?;
@@ -379,6 +392,44 @@ pub fn run_check(ctx: &Ctx) -> i32 {
     });
     if !ctx.capped.load(std::sync::atomic::Ordering::Relaxed) {
         ctx.level_done(&format!("5 tag names x pieces<={max} (and {} further names: every void element, case variants, near misses, ordinary names x pieces<=2) x 8 contexts x 3 encodings x every cut inside the tag; 9 edits + re-read up to pieces<={}", NAMES.len() - DEEP_NAMES, if max > 3 { max - 1 } else { max }));
+    }
+    // edit scripts: every sequence of 2 and 3 edits from a 6-edit menu on every tag <= 3 pieces
+    // (emptying the attribute list and editing again, overwriting, renaming in between), one re-read
+    {
+        let menu = [
+            Op::RemoveAttr("a".into()), Op::RemoveAttr("B".into()), Op::RemoveAttr("zz".into()),
+            Op::SetAttr("a".into(), "1".into()), Op::SetAttr("new".into(), "2".into()), Op::SetTagName("q".into()),
+        ];
+        let mut scripts: Vec<Vec<Op>> = vec![];
+        for a in &menu {
+            for b in &menu {
+                scripts.push(vec![a.clone(), b.clone()]);
+                for c in &menu {
+                    scripts.push(vec![a.clone(), b.clone(), c.clone()]);
+                }
+            }
+        }
+        let cfgs: Vec<Prepared> = scripts.iter().map(|sc| Prepared::new(base_cfg("UTF-8", sc.clone())).unwrap()).collect();
+        let n3 = crate::alpha::count_upto(PIECES.len(), 3);
+        par_for(n3, 4, |j| {
+            let mut idx = vec![];
+            crate::alpha::seq_at(j, PIECES.len(), &mut idx);
+            let (doc, start, len, ns) = build_doc(0, &idx, 0, encoding_rs::UTF_8);
+            if expectation(&doc[start..start + len], ns, encoding_rs::UTF_8).is_none() {
+                return;
+            }
+            for (sc, p) in scripts.iter().zip(&cfgs) {
+                let (m, calls) = check_edits(p, sc, &doc, start, len, ns);
+                ctx.exec(calls);
+                ctx.validated(1);
+                if let Some(msg) = m {
+                    let case = json!({"kind": "edits", "name": 0, "pieces": idx, "context": 0, "encoding": "UTF-8", "ops": sc, "doc_lossy": lossy(&doc)});
+                    let c2 = case.clone();
+                    ctx.violation(msg, case, &|| replay(&c2));
+                }
+            }
+        });
+        ctx.level_done(&format!("{} edit scripts of 2-3 calls (remove / set / rename) x every <a ...> tag of <=3 pieces: one re-read reflects all of them", scripts.len()));
     }
     // ESI tags: void only when the setting is on
     {
